@@ -46,6 +46,10 @@ def obligations(tier):
            bounds="forall pass-through texts |s|<=2, 8-digit dates, both key orders; 4 rows of integer / float spellings (symbolic index)", harness="harness/h_summary.py", func="sections_ok", timeout=to),
         Ob("C14.pinfo", "X", "product information: file roles by NN numbering (first, second, middle, last), shapes (pixels, lines) per index, other keys converted - for permuted lines", TF,
            bounds="5 permutations x reversed; 3..6 product files; 5 rows of count spellings (symbolic index)", harness="harness/h_summary.py", func="product_info_ok", timeout=to),
+        Ob("C14.codes", "R", "coded summary values (Pds_ProductID components, ResamplingMethod, ProcessFacility): the live code tables, as functions code -> meaning, equal the "
+           "documented tables (pinned in spec/code_tables.json) on every documented code and define no other code; each entry replayed through the real section transformers",
+           ["ceos_alos2.decoders:observation_modes", "ceos_alos2.decoders:lookup", "ceos_alos2.summary:transform_product_spec", "ceos_alos2.summary:transform_label_info"],
+           bounds="forall code strings (z3 string theory; the tables are finite maps read from the live module on every run)", call="props.c14:ob_codes"),
         Ob("C14.e2e", "E", "witness replay through open_summary: a full summary in 4 line orders x LF/CRLF gives the same tree; corrupted lines (blank first line, missing quote, "
            "bad section, trailing garbage) are all named in one ExceptionGroup", ["ceos_alos2.summary:open_summary", "ceos_alos2.summary:transform_summary"],
            bounds="concrete replays (not the deciding step)", call="props.c14:ob_e2e"),
@@ -137,6 +141,73 @@ def ob_line(tier, K=16):
     elif res["verdict"] == "violated":
         res.update(verdict="inconclusive", reason="grammar counterexample did not reproduce on the real regex")
     res["replayed_strings"] = len(strings)
+    return res
+
+
+def _table_fn(table, s, default):
+    t = z3.StringVal(default)
+    for k, v in table.items():
+        t = z3.If(s == z3.StringVal(k), z3.StringVal(v), t)
+    return t
+
+
+def ob_codes(tier):
+    """live tables vs documented tables as functions over all strings (undefined = a reserved marker), decided by z3; then every table
+    entry goes through the real section transformers"""
+    from ceos_alos2 import decoders as D
+    from ceos_alos2 import summary as SM
+    from props.c15 import pinned
+    from vlib.smt import Session
+
+    S = Session()
+    P = pinned()
+    s = z3.String("code")
+    UNDEF = "\x00undefined"
+    names = ["observation_modes", "observation_directions", "processing_levels", "processing_options", "map_projections", "orbit_directions",
+             "resampling_methods", "processing_facilities"]
+    cex = []
+    for name in names:
+        live = getattr(D, name, None)
+        if not isinstance(live, dict) or not all(isinstance(k, str) and isinstance(v, str) for k, v in live.items()):
+            S.failed.append({"label": f"codes:{name}:not-a-str-table", "model": {"live": repr(live)[:100]}})
+            continue
+        ok = S.holds(f"codes:{name}", [], _table_fn(live, s, UNDEF) == _table_fn(P[name], s, UNDEF), show=[s])
+        if ok is False:
+            cex.append((name, S.failed[-1]["model"]["code"]))
+    res = S.result()
+    # replay: every documented code through the real transformers
+    bad = []
+    base = "WWDR1.5GUA"
+
+    def pid_with(group, code):
+        parts = {"observation_modes": (0, 3), "observation_directions": (3, 4), "processing_levels": (4, 7), "processing_options": (7, 8), "map_projections": (8, 9),
+                 "orbit_directions": (9, 10)}
+        a, b = parts[group]
+        return base[:a] + code + base[b:]
+
+    keys = {"observation_modes": "observation_mode", "observation_directions": "observation_direction", "processing_levels": "processing_level",
+            "processing_options": "processing_option", "map_projections": "map_projection", "orbit_directions": "orbit_direction"}
+    n = 0
+    for name in names:
+        for code, meaning in P[name].items():
+            n += 1
+            try:
+                if name == "resampling_methods":
+                    got = SM.transform_product_spec({"ResamplingMethod": code}).attrs.get("ResamplingMethod")
+                elif name == "processing_facilities":
+                    got = SM.transform_label_info({"ProcessFacility": code}).attrs.get("ProcessFacility")
+                else:
+                    attrs = SM.transform_product_spec({"ProductID": pid_with(name, code)}).attrs
+                    got = attrs.get(keys[name], attrs.get("ProductID", {}).get(keys[name]) if isinstance(attrs.get("ProductID"), dict) else None)
+            except Exception as e:  # noqa: BLE001
+                got = f"{type(e).__name__}: {e}"
+            if got != meaning:
+                bad.append({"table": name, "code": code, "documented": meaning, "summary gives": got})
+    res["replays"] = n
+    if bad:
+        res.update(verdict="violated", cex={"solver": cex, "replay": bad[:4]}, finding_key="C14.codes:" + ",".join(sorted({b["table"] + "/" + b["code"] for b in bad}))[:200])
+    elif res["verdict"] == "violated":
+        res.update(verdict="inconclusive", reason="table difference did not reproduce through the section transformers", cex=cex)
     return res
 
 
